@@ -313,6 +313,12 @@ fn spawn_worker(kind: &str, extra: &[String]) -> Worker {
     }
 }
 
+static POOL_HUNG: std::sync::atomic::AtomicBool = std::sync::atomic::AtomicBool::new(false);
+
+pub fn job_timeout() -> Duration {
+    Duration::from_secs(std::env::var("XSMC_JOB_TIMEOUT").ok().and_then(|s| s.parse().ok()).unwrap_or(90))
+}
+
 /// Run `jobs` on `n` worker sub-processes; results are returned in job order. A worker that
 /// dies on a job yields `{"crashed": true, "job": <job>}` for it and is replaced.
 pub fn pool_map(kind: &str, extra: &[String], n: usize, jobs: Vec<Value>) -> Vec<Value> {
@@ -321,6 +327,7 @@ pub fn pool_map(kind: &str, extra: &[String], n: usize, jobs: Vec<Value>) -> Vec
         return vec![];
     }
     let n = n.min(total).max(1);
+    POOL_HUNG.store(false, Ordering::SeqCst);
     let queue = std::sync::Arc::new(std::sync::Mutex::new(
         jobs.into_iter().enumerate().collect::<std::collections::VecDeque<_>>(),
     ));
@@ -336,19 +343,53 @@ pub fn pool_map(kind: &str, extra: &[String], n: usize, jobs: Vec<Value>) -> Vec
             loop {
                 let job = { queue.lock().unwrap().pop_front() };
                 let Some((i, job)) = job else { break };
+                if POOL_HUNG.load(Ordering::SeqCst) {
+                    // a job of this run already hung: do not spend the watchdog time again
+                    let _ = rtx.send((i, json!({"crashed": true, "skipped_after_hang": true, "panicked": "not run: an earlier job of this run hung", "job": job})));
+                    continue;
+                }
                 let line = serde_json::to_string(&job).unwrap();
                 let ok = writeln!(w.stdin, "{}", line).is_ok() && w.stdin.flush().is_ok();
                 let mut out = String::new();
+                // per-job watchdog: a subject that stops making progress (dead collector thread,
+                // deadlock) must not hang the check
+                let limit = job_timeout();
+                let done = std::sync::Arc::new(std::sync::atomic::AtomicBool::new(false));
+                let timed_out = std::sync::Arc::new(std::sync::atomic::AtomicBool::new(false));
+                let pid = w.child.id();
+                {
+                    let (done, timed_out) = (done.clone(), timed_out.clone());
+                    std::thread::spawn(move || {
+                        let t0 = Instant::now();
+                        while !done.load(Ordering::SeqCst) {
+                            if t0.elapsed() > limit {
+                                timed_out.store(true, Ordering::SeqCst);
+                                let _ = Command::new("kill").arg("-KILL").arg(pid.to_string()).status();
+                                return;
+                            }
+                            std::thread::sleep(Duration::from_millis(50));
+                        }
+                    });
+                }
                 let got = if ok {
                     w.stdout.read_line(&mut out).unwrap_or(0)
                 } else {
                     0
                 };
+                done.store(true, Ordering::SeqCst);
                 if got == 0 {
                     let status = w.child.wait().ok();
+                    let hung = timed_out.load(Ordering::SeqCst);
+                    if hung {
+                        POOL_HUNG.store(true, Ordering::SeqCst);
+                    }
                     let _ = rtx.send((
                         i,
-                        json!({"crashed": true, "status": format!("{:?}", status), "job": job}),
+                        if hung {
+                            json!({"crashed": true, "timeout": true, "panicked": format!("no answer within {} s: the subject stopped making progress (a dead worker thread of the store, or a deadlock)", limit.as_secs()), "job": job})
+                        } else {
+                            json!({"crashed": true, "status": format!("{:?}", status), "job": job})
+                        },
                     ));
                     w = spawn_worker(&kind, &extra);
                     continue;
